@@ -158,6 +158,21 @@ func init() {
 			*m.slot(p) = m.force(a[1]).(Int)
 			return nil
 		},
+		"BigOfBytes": func(m *M, fn *ssa.Function, a []Value) Value {
+			b := m.force(a[0]).(Slice)
+			var v Int
+			switch {
+			case b.abs:
+				v = Int{w: 64, t: b.labT}
+			case b.isNil || b.ln == 0:
+				v = cInt(64, false, 0)
+			default:
+				v = Int{w: 64, t: sliceAsStrLabel(m, b)}
+			}
+			o := m.newObj(v)
+			o.name = "big"
+			return Ptr{obj: o}
+		},
 		"BigVal": func(m *M, fn *ssa.Function, a []Value) Value { return bigVal(m, a[0]) },
 		"BigEq": func(m *M, fn *ssa.Function, a []Value) Value {
 			return m.valEq(bigVal(m, a[0]), bigVal(m, a[1]))
